@@ -81,8 +81,17 @@ func fromLEBytes(k types.BasicKind, b []value) value {
 	return mkVal(k, acc)
 }
 
+// findMethod returns the exported method name of type t, or nil.
+func findMethod(i *interpreter, t types.Type, name string) *ssa.Function {
+	sel := i.prog.MethodSets.MethodSet(t).Lookup(nil, name)
+	if sel == nil {
+		return nil
+	}
+	return i.prog.MethodValue(sel)
+}
+
 func callMethod(fr *frame, recv iface, name string, args ...value) value {
-	fn := fr.i.prog.LookupMethod(recv.t, nil, name)
+	fn := findMethod(fr.i, recv.t, name)
 	if fn == nil {
 		panic(fmt.Sprintf("engine: no method %s on %s", name, recv.t))
 	}
@@ -162,7 +171,7 @@ func goValue(fr *frame, v value) (interface{}, bool) {
 		// error / Stringer
 		if _, isBasic := v.t.Underlying().(*types.Basic); !isBasic {
 			for _, m := range []string{"Error", "String"} {
-				if fn := fr.i.prog.LookupMethod(v.t, nil, m); fn != nil && fn.Signature.Params().Len() == 0 && fn.Signature.Results().Len() == 1 {
+				if fn := findMethod(fr.i, v.t, m); fn != nil && fn.Signature.Params().Len() == 0 && fn.Signature.Results().Len() == 1 {
 					if b, ok := fn.Signature.Results().At(0).Type().Underlying().(*types.Basic); ok && b.Kind() == types.String {
 						s := call(fr.i, fr, token.NoPos, fn, []value{v.v})
 						if gs, ok := s.(string); ok {
@@ -246,7 +255,9 @@ func extSprintf(fr *frame, args []value) value {
 		if r, ok := symSprintf(fr, format, vs); ok {
 			return r
 		}
-		P.note("fmt.Sprintf over symbolic values rendered as <sym> at " + P.site())
+		// not a format we model: the result may be passed around (error texts)
+		// but any operation on it stops the path as unsupported
+		return opaque{"fmt.Sprintf(" + format + ") over symbolic values"}
 	}
 	return fmt.Sprintf(format, gas...)
 }
@@ -260,7 +271,7 @@ func extSprint(fr *frame, args []value) value {
 				return r
 			}
 		}
-		P.note("fmt.Sprint over symbolic values rendered as <sym> at " + P.site())
+		return opaque{"fmt.Sprint over symbolic values"}
 	}
 	return fmt.Sprint(gas...)
 }
@@ -454,7 +465,7 @@ func extErrorsIs(fr *frame, args []value) value {
 				return true
 			}
 		}
-		fn := fr.i.prog.LookupMethod(err.t, nil, "Unwrap")
+		fn := findMethod(fr.i, err.t, "Unwrap")
 		if fn == nil || fn.Signature.Results().Len() != 1 {
 			return false
 		}
@@ -690,6 +701,14 @@ func init() {
 		"bytes.Equal":           extBytesEqual,
 		"math.Round":            extMathRound,
 		"strconv.Atoi":          extAtoi,
+		"internal/bytealg.MakeNoZero": func(fr *frame, args []value) value {
+			n := int(asInt64(args[0]))
+			out := make([]value, n)
+			for i := range out {
+				out[i] = uint8(0)
+			}
+			return out
+		},
 		"internal/stringslite.Clone": func(fr *frame, args []value) value { return args[0] },
 		"strings.Clone":              func(fr *frame, args []value) value { return args[0] },
 		"(*strings.Builder).copyCheck": func(fr *frame, args []value) value { return nil },
